@@ -5,6 +5,9 @@
 
 package parser
 
+// The key order of a map literal is reachable only through the literal.
+//@ owned MapLiteral.Order
+
 // Node accessors are plain getters on immutable trees.
 //@ iface (n Node) Token() (t *lexer.Token)
 //@   trusted
